@@ -618,6 +618,9 @@ def c14_jobs():
                     quick = (la in (-1, 8) and lb in (-1, 8) and pt == 0xFE) or (op in (0, 2) and pt == 1 and lb == -1) or (la == 0 and lb in (-1, 8) and pt == 0xFE)
                     la2 = 24 if (pt == 1 and la == 8) else la
                     jobs.append(Job("c14.cpp", "h_packet_value", defs={"OP": op, "LA": la2, "LB": lb, "PT": pt}, tier="quick" if quick else "thorough", sym=sym, **common))
+    # sources whose typed payload was installed through setPayload (CAN built through the API, flags incl. bus-error bits symbolic)
+    for op, lb, tier in ((0, -1, "quick"), (2, 8, "quick"), (2, -1, "thorough"), (1, -1, "quick"), (3, 8, "thorough"), (5, -1, "thorough")):
+        jobs.append(Job("c14.cpp", "h_packet_value", defs={"OP": op, "LA": 24, "LB": lb, "PT": 1, "SRCSET": 1}, tier=tier, sym=sym + "; CAN id, flags, error position", **common))
     for la in (-1, 0, 1, 8):
         for lb in (-1, 0, 1, 8):
             quick = (la, lb) in ((8, 8), (-1, -1), (0, 0), (8, 1), (-1, 0))
